@@ -16,6 +16,7 @@ CONSTANTS
   CloseConn = FALSE
   HasFallback = FALSE
   AllowClose = TRUE
+  DeadlineTicks = FALSE
   OneAtATime = FALSE
   SafePool = FALSE
   Strict = FALSE
